@@ -80,7 +80,9 @@ def gen_cases(tier, seed):
         for nc in P.CLF_COLS[name]:
             for opt in opts:
                 for lab in P.LABEL_SETS:
-                    for balanced in (True, False):
+                    for balanced in (True, False, "rare"):
+                        if balanced == "rare" and len(P.LABEL_SETS[lab]) < 3:
+                            continue  # a rare class next to two ordinary ones
                         for p, (fam, n, L) in enumerate(panels):
                             for rs in (0, 1, 2):
                                 i += 1
@@ -91,6 +93,19 @@ def gen_cases(tier, seed):
                                            balanced=balanced, fam=fam, n=n, L=Lc, rs=rs,
                                            xc=("nested", "numpy")[(i + seed) % 2],
                                            yseries=bool(((i + seed) // 2) % 2))
+    # the forests under n_jobs > 1 (joblib threading backend): n_estimators is not a multiple of
+    # the number of jobs
+    for name in ("TSF", "RISE", "STSF"):
+        for nj in (2, 3):
+            for lab in ("01", "bac"):
+                for rs in (0, 1):
+                    fam, n, L = panels[0]
+                    yield dict(kind="clf", est=name, opt=0, cols=1, labels=lab, balanced=True,
+                               fam=fam, n=n, L=L, rs=rs, xc="nested", yseries=False, n_jobs=nj)
+    for nj in (2, 3):
+        fam, n, L = panels[0]
+        yield dict(kind="reg", est="TSFR", opt=0, cols=1, fam=fam, n=n, L=L, rs=0, xc="nested",
+                   yseries=False, n_jobs=nj)
 
 
 # ------------------------------------------------------------------------------ helpers
@@ -123,6 +138,13 @@ def _forest_reference(est, X1, method):
 
 
 def run_case(case):
+    import joblib
+
+    with joblib.parallel_backend("threading"):
+        return _run_case(case)
+
+
+def _run_case(case):
     import warnings
 
     warnings.filterwarnings("ignore")
@@ -136,7 +158,9 @@ def run_case(case):
     # places; keyed apart so that this one cause does not mask other fit/score failures
     fl = ":float-labels" if P.kind_of(np.array(labels)) == "float" else ""
     nc, L, fam = case["cols"], case["L"], case["fam"]
-    X, ks = P.train_panel(case["n"], k, case["balanced"], nc, L, fam)
+    # the rare class is the one whose label sorts first (not the largest in sort order)
+    rare_k = min(range(k), key=lambda j: (str(type(labels[j])), labels[j]))
+    X, ks = P.train_panel(case["n"], k, case["balanced"], nc, L, fam, rare_k)
     y = P.label_array(labels, ks, as_series=case["yseries"])
     Xa, ka = P.apply_panel(6, k, nc, L, fam)
     Xt = Xa + P.select(X, [0, 1, 2, 5])
@@ -149,7 +173,7 @@ def run_case(case):
     m = len(Xt)
     mk = lambda Z: P.container(Z, case["xc"], "dim")  # noqa: E731
 
-    clf = P.make_classifier(name, case["rs"], case["opt"])
+    clf = P.make_classifier(name, case["rs"], case["opt"], case.get("n_jobs"))
     o = call(lambda: clf.fit(mk(X), y))
     res.outcome("%s:fit:%s" % (name, o.kind))
     if not o.ok:
@@ -246,6 +270,26 @@ def run_case(case):
                         expected=dict(instance=d, proba=o.value[0][d].tolist()),
                         observed=Pm[d].tolist())
         res.evals += 1
+    if name in ("BOSS", "CBOSS") and classes_ok:
+        # column j must carry the (weighted) votes of the fitted members for classes_[j]
+        def votes():
+            ws = list(getattr(clf, "weights", [])) or [1.0] * len(clf.classifiers)
+            acc = np.zeros((m, k))
+            for w, member in zip(ws, clf.classifiers):
+                for i, v in enumerate(member.predict(mk(Xt))):
+                    acc[i, got_classes.index(v)] += w
+            return acc / float(np.sum(ws[:len(clf.classifiers)]))
+
+        o = call(votes)
+        if not o.ok:
+            res.violate(name + ":whitebox", "members cannot be re-evaluated", observed=o.brief())
+        elif not np.allclose(Pm, o.value, rtol=1e-9, atol=1e-12):
+            d = int(np.argmax(np.abs(Pm - o.value).max(axis=1)))
+            res.violate(name + ":whitebox", "probability columns do not carry the members' "
+                        "votes for the corresponding entry of classes_",
+                        expected=dict(instance=d, classes=[str(c) for c in got_classes],
+                                      votes=o.value[d].tolist()), observed=Pm[d].tolist())
+        res.evals += 1
     if name == "CENS":
         def members():
             outs = []
@@ -286,7 +330,7 @@ def _run_reg(case, res):
     Xa, _ = P.apply_panel(6, 3, 1, L, fam)
     Xt = Xa + P.select(X, [0, 1, 2, 5])
     mk = lambda Z: P.container(Z, case["xc"], "dim")  # noqa: E731
-    reg = P.make_regressor(case["rs"], case["opt"])
+    reg = P.make_regressor(case["rs"], case["opt"], case.get("n_jobs"))
     o = call(lambda: reg.fit(mk(X), y))
     res.outcome("TSFR:fit:" + o.kind)
     if not o.ok:
